@@ -13,7 +13,7 @@ TOL = 1e-9   # unit-free identity (DESIGN §5)
 
 SHEAR_PAIRS = [(a, b) for a in range(1, 7) for b in range(a, 7) if b >= 4]
 STRAINS = ["thirds", "const", "extreme", "field", "mixed-rows", "two-equal", "ones", "raw", "int"]
-NTV = [2, 3, 1, 4]      # number of strain rows (3 makes the (ntv,3) array square)
+NTV = [2, 3, 1, 4, 0]      # number of strain rows (3 makes the (ntv,3) array square; 0 = a bare (3,) triple)
 SCALES = [1.0, 1e-12, 1e-7, 1e9]      # the map is homogeneous: the same tensors on other numeric scales (Ry/bohr^3 values are ~1e-2..1e-12)
 GENERIC = None
 
@@ -36,6 +36,10 @@ def own_fictitious_strain(std):
 def comp(C, key):
     i, j, k, l = [x - 1 for x in key.standard]
     return C[i, j, k, l]
+
+
+class CallerDataModified(Exception):
+    pass
 
 
 def soft_target_tensor(key):
@@ -62,8 +66,11 @@ def run_case(case):
         key = {"from_voigt:np": lambda: C_.from_voigt(numpy.int64(a), numpy.int64(b)),
                "from_standard:np": lambda: C_.from_standard(*[numpy.int64(x) for x in std]),
                "create4:np": lambda: C_.create(*[numpy.int32(x) for x in std])}[spelling]()
-    v = numpy.array([280.0, 320.0, 301.0, 264.0][:case.get("ntv", 2)])
+    one_d = case.get("ntv", 2) == 0        # a bare (3,) triple instead of an (ntv,3) array
+    v = numpy.array([280.0, 320.0, 301.0, 264.0][:max(case.get("ntv", 2), 1)])
     strain = D.strain_field(case["strain"], v)
+    if one_d:
+        strain = numpy.array(strain[0])
     viol = []
     try:
         obj = Shear(strain, key)
@@ -95,10 +102,12 @@ def run_case(case):
     if any(k.is_shear for k in keys_rot):
         viol.append(V("c03:keys:rotated-shear", f"c{a}{b}: a shear-type component is requested in the diagonalising frame: {keys_rot}"))
     # rotated strains = diag(T^T diag(e) T), trace preserved
-    exp = numpy.stack([numpy.diag(T.T @ numpy.diag(e) @ T) for e in strain])
+    exp = numpy.stack([numpy.diag(T.T @ numpy.diag(e) @ T) for e in numpy.atleast_2d(strain)])
+    if one_d:
+        exp = exp[0]
     if srot.shape != exp.shape or not numpy.allclose(srot, exp, rtol=0, atol=1e-12):
         viol.append(V("c03:strain-rotated", f"c{a}{b}: rotated axial strains {srot.tolist()} expected {exp.tolist()}"))
-    elif not numpy.allclose(srot.sum(axis=1), strain.sum(axis=1), atol=1e-12):
+    elif not numpy.allclose(srot.sum(axis=-1), numpy.asarray(strain).sum(axis=-1), atol=1e-12):
         viol.append(V("c03:strain-trace", f"c{a}{b}: trace of axial strains not preserved"))
 
     from cij.util import c_ as _cc
@@ -136,6 +145,9 @@ def run_case(case):
     for name, C6 in tensors:
         try:
             got, want = solve(obj, C6, T)
+        except CallerDataModified as ex:
+            viol.append(V("c03:caller-dictionary-modified", f"c{a}{b} on {name}: {ex}"))
+            break
         except Exception as ex:
             viol.append(V(f"c03:solve-raises:{type(ex).__name__}", f"c{a}{b} on {name}: {ex!r}"))
             break
@@ -158,6 +170,31 @@ def run_case(case):
             if not abs(got - want) <= TOL * numpy.abs(C6).max():
                 viol.append(V(f"c03:dict-layout:{present}", f"c{a}{b} on tensor {name} with the known components supplied '{present}': solver returned {got!r}, exact component {want!r}"))
                 break
+    # ONE dictionary holding the whole tensor serves several solver objects one after the other (a caller that keeps the
+    # crystal-frame components in a single mapping): each solver must still return its exact component
+    Cg = R.full_from_voigt(generic_tensor())
+    for first in SHEAR_PAIRS:
+        if tuple(first) == (a, b):
+            continue
+        shared = {k: numpy.array([comp(Cg, k)]) for k in ALL21}
+        try:
+            results = []
+            for kk in (c_(*first), key):
+                o = Shear(strain, kk)
+                Tm = numpy.real(numpy.asarray(o.transformation_matrix))
+                Crot = R.rotate(Cg, Tm)
+                o.modulus = shared
+                o.modulus_rotated = {k: numpy.array([comp(Crot, k)]) for k in ALL21}
+                results.append((kk, float(numpy.real(numpy.asarray(o.get_target_elastic_modulus()).ravel()[0]))))
+        except Exception as ex:
+            viol.append(V(f"c03:shared-dictionary:raises:{type(ex).__name__}", f"c{first[0]}{first[1]} then c{a}{b} on one dictionary of the whole tensor: {ex!r}"))
+            break
+        n_eval += 2
+        bad = [(kk, g) for kk, g in results if not abs(g - comp(Cg, kk)) <= TOL * numpy.abs(generic_tensor()).max()]
+        if bad:
+            kk, g = bad[0]
+            viol.append(V("c03:shared-dictionary", f"solvers for c{first[0]}{first[1]} then c{a}{b} fed from ONE dictionary of the whole tensor: {kk!r} came out as {g!r}, exact component {comp(Cg, kk)!r}"))
+            break
     # storage precision of the supplied components: the same VALUES handed over as float32 / float16 arrays must give
     # the result of the float64 arrays holding those values (the solver works in double precision whatever the storage)
     def solve_stored(o, C6, Tm, dt):
@@ -185,7 +222,8 @@ def run_case(case):
                 break
     # every sign pattern and column order of the frame: same pairing (eigenvalue <-> fraction), same result
     subst = 0
-    base_pairs = sorted((round(float(Dm[i, i]), 9), tuple(numpy.round(exp[:, i], 10))) for i in range(3))
+    exp2 = numpy.atleast_2d(exp)
+    base_pairs = sorted((round(float(Dm[i, i]), 9), tuple(numpy.round(exp2[:, i], 10))) for i in range(3))
     for perm in itertools.permutations(range(3)):
         for signs in itertools.product((1.0, -1.0), repeat=3):
             T2 = T[:, list(perm)] * numpy.array(signs)[None, :]
@@ -195,7 +233,7 @@ def run_case(case):
             if not (numpy.array_equal(numpy.asarray(o2.transformation_matrix), T2)):
                 continue   # substitution seam not available (cache naming changed): skip, do not alarm
             subst += 1
-            s2 = numpy.asarray(o2.strain_rotated)
+            s2 = numpy.atleast_2d(numpy.asarray(o2.strain_rotated))
             pairs = sorted((round(float(numpy.diag(Dm)[perm[i]]), 9), tuple(numpy.round(s2[:, i], 10))) for i in range(3))
             if pairs != base_pairs:
                 viol.append(V("c03:frame-convention:pairing", f"c{a}{b}: with column order {perm} signs {signs} the (eigenvalue, fraction) pairs change"))
@@ -209,7 +247,7 @@ def run_case(case):
 
 
 def explore(ctx):
-    ctx.rule = ("15 shear-type keys x 9 axial-strain fields x 1-4 strain rows (3 rows make the array square; one field has integer dtype), target key also built through the public classmethods from numpy integers (incl. a hydrostatic row among anisotropic rows, two equal fractions, un-normalised triples (1,1,1), (0.9,1,1.2), (2,3,7)); known components handed over in 5 dictionary layouts and in float32 / float16 storage (same values as float64: same result) (asked order, reversed, sorted, all 21 components in two orders); each case "
+    ctx.rule = ("15 shear-type keys x 9 axial-strain fields x 1-4 strain rows (3 rows make the array square; 0 rows = a bare (3,) triple; one field has integer dtype), target key also built through the public classmethods from numpy integers (incl. a hydrostatic row among anisotropic rows, two equal fractions, un-normalised triples (1,1,1), (0.9,1,1.2), (2,3,7)); all ordered pairs of solver objects fed from ONE dictionary holding the whole tensor (each must still be exact); known components handed over in 5 dictionary layouts and in float32 / float16 storage (same values as float64: same result) (asked order, reversed, sorted, all 21 components in two orders); each case "
                 "runs the solver on the 21 unit tensors, all 210 pairwise sums (linearity is tested, not assumed) and one generic tensor, the "
                 "unit and generic tensors also on the numeric scales 1e-12, 1e-7, 1e9 (homogeneity), with exact components supplied "
                 "from an independent einsum rotation; plus all 48 sign/column-order variants of the frame; complete in "
